@@ -45,7 +45,16 @@ impl Scenario {
             Scenario::NameVolume(s) => s.run(prop),
         });
         match r {
-            Ok(o) => o,
+            Ok(mut o) => {
+                // A panic raised inside the simulator's own sources is a defect of the harness, whatever clause caught it.
+                if let Some(v) = o.violation.as_mut() {
+                    if v.message.contains("/sim/src/") && v.message.contains(" at ") && (v.clause.contains("panic") || v.message.contains("panicked")) {
+                        v.site = format!("{} (was clause {})", v.site, v.clause);
+                        v.clause = "harness".to_string();
+                    }
+                }
+                o
+            },
             Err(p) => Outcome::default().fail(Violation::new(prop, "harness", "engine-panic", p)),
         }
     }
